@@ -189,10 +189,17 @@ def r5_symbol_file(ctx: Ctx) -> None:
 
 
 
+def r6_copier_header_shift(ctx: Ctx) -> None:
+    """the copier header shifts every IPS record offset by exactly 0x200, once (shared with C11.R3)"""
+    from .c11 import r3_no_wrap_and_copier
+
+    r3_no_wrap_and_copier(ctx)
+
+
 def rb_binding_agreement(ctx: Ctx) -> None:
     from ..ownership import binding_agreement
 
     binding_agreement(ctx)
 
 
-RULES = [r1_options_reach_assembler, r2_mapping_choices_total, r3_defines_are_integers, r4_one_pipeline, r5_symbol_file, rb_binding_agreement]
+RULES = [r1_options_reach_assembler, r2_mapping_choices_total, r3_defines_are_integers, r4_one_pipeline, r5_symbol_file, r6_copier_header_shift, rb_binding_agreement]
